@@ -7,6 +7,14 @@ package main
 // in flight (the class in which the implementation is known to lose a reply,
 // finding K1); all other histories keep the ids of simultaneous requests
 // distinct, while ids are re-used one after the other.
+//
+// REQ traffic shares the id space with the requests: client REQ and CLOSE
+// messages (and child EOSEs) carry the ids of the EVENT and COUNT requests that
+// are in flight, COUNT subscription ids are also used by live REQ subscriptions.
+// A CLOSE or a REQ must not disturb the aggregation of an OK or a COUNT.  Beside
+// the random histories, c09CloseInterleavings() enumerates, for one request and
+// every order of its replies, a client CLOSE / REQ with the request's id at
+// every position of the history.
 
 import (
 	"encoding/json"
@@ -125,12 +133,24 @@ func c09Generate(r *common.Rand, overlap bool) mCase {
 			}
 			c.Steps = append(c.Steps, mStep{K: "child", I: r.Intn(n), M: c09Reply(r, q)})
 			continue
-		case x < 7: // unrelated REQ traffic
-			switch r.Intn(3) {
-			case 0:
-				c.Steps = append(c.Steps, mStep{K: "req", Sub: "s1", Fs: []common.JFilter{{}}})
-			case 1:
-				c.Steps = append(c.Steps, mStep{K: "child", I: r.Intn(n), M: &mMsg{T: "eose", Sub: "s1"}})
+		case x < 22: // REQ traffic, mostly under the ids of the requests in flight
+			// the id: one of a request in flight (EVENT id or COUNT subscription id), one of
+			// the COUNT universe (so that a live subscription and a later COUNT share it), or
+			// an unrelated one
+			sid := "s1"
+			switch y := r.Intn(10); {
+			case y < 6 && len(flight) > 0:
+				sid = flight[r.Intn(len(flight))].id
+			case y < 9:
+				sid = common.Pick(r, subs)
+			}
+			switch y := r.Intn(10); {
+			case y < 3:
+				c.Steps = append(c.Steps, mStep{K: "req", Sub: sid, Fs: []common.JFilter{{}}})
+			case y < 7:
+				c.Steps = append(c.Steps, mStep{K: "close", Sub: sid})
+			case y < 9:
+				c.Steps = append(c.Steps, mStep{K: "child", I: r.Intn(n), M: &mMsg{T: "eose", Sub: sid}})
 			default:
 				c.Steps = append(c.Steps, mStep{K: "child", I: r.Intn(n), M: &mMsg{T: "notice", Msg: "hello"}})
 			}
@@ -192,6 +212,67 @@ func permutations(k int) [][]int {
 		for pos := 0; pos <= len(p); pos++ {
 			q := append(append(append([]int{}, p[:pos]...), k-1), p[pos:]...)
 			out = append(out, q)
+		}
+	}
+	return out
+}
+
+// c09CloseInterleavings: one request (EVENT or COUNT, id q) answered once by
+// every child, for n = 2 (both reply orders) and n = 3 (three reply orders),
+// with one client CLOSE q resp. REQ q inserted at every position from just
+// before the request to after the last reply; once with no subscription q, once
+// with a live subscription q whose merged EOSE is out, once with one whose EOSE
+// is still pending.  The replies disagree (verdicts, counts) so that a lost or
+// mixed aggregate shows.  Part of every tier (276 short histories).
+func c09CloseInterleavings() []mCase {
+	var out []mCase
+	const q = "q"
+	orders := map[int][][]int{2: {{0, 1}, {1, 0}}, 3: {{0, 1, 2}, {2, 1, 0}, {1, 2, 0}}}
+	for _, n := range []int{2, 3} {
+		for _, count := range []bool{true, false} {
+			for _, ord := range orders[n] {
+				var base []mStep
+				if count {
+					base = append(base, mStep{K: "count", Sub: q})
+				} else {
+					base = append(base, mStep{K: "event", ID: q})
+				}
+				for _, ch := range ord {
+					var m *mMsg
+					if count {
+						m = &mMsg{T: "count", Sub: q, C: uint64([]int{3, 7, 5}[ch])}
+					} else {
+						m = &mMsg{T: "ok", ID: q, Acc: ch != 1, P: []string{"", "blocked: ", ""}[ch], Msg: []string{"", "b1", "m2"}[ch]}
+					}
+					base = append(base, mStep{K: "child", I: ch, M: m})
+				}
+				for prefix := 0; prefix < 3; prefix++ {
+					var pre []mStep
+					if prefix > 0 {
+						pre = append(pre, mStep{K: "req", Sub: q, Fs: []common.JFilter{{}}})
+						for ch := 0; ch < n; ch++ {
+							if prefix == 2 && ch == n-1 {
+								break // the last child's EOSE stays outstanding
+							}
+							pre = append(pre, mStep{K: "child", I: ch, M: &mMsg{T: "eose", Sub: q}})
+						}
+					}
+					for _, ins := range []string{"close", "req"} {
+						for pos := 0; pos <= len(base); pos++ {
+							st := mStep{K: ins, Sub: q}
+							if ins == "req" {
+								st.Fs = []common.JFilter{{}}
+							}
+							c := mCase{N: n}
+							c.Steps = append(c.Steps, pre...)
+							c.Steps = append(c.Steps, base[:pos]...)
+							c.Steps = append(c.Steps, st)
+							c.Steps = append(c.Steps, base[pos:]...)
+							out = append(out, c)
+						}
+					}
+				}
+			}
 		}
 	}
 	return out
@@ -287,6 +368,7 @@ func init() {
 				nOverlap = n
 			}
 			firstOverlap := n - nOverlap
+			cases = append(cases, c09CloseInterleavings()...)
 			if n >= mergeExhaustiveFrom {
 				cases = append(cases, c09Exhaustive()...)
 			}
